@@ -698,6 +698,22 @@ def _const_eval(node, env):
 # state
 
 
+def _clone_shared(v, memo):
+    """copy of a value in which every record is copied exactly once (aliasing between records is preserved); see State.fork"""
+    if isinstance(v, SRecord):
+        r = memo.get(id(v))
+        if r is None:
+            r = SRecord(v.cls, {})
+            r.rtype = getattr(v, 'rtype', None)
+            memo[id(v)] = r
+            for k, x in v.fields.items():
+                r.fields[k] = _clone_shared(x, memo)
+        return r
+    if type(v) is tuple and any(isinstance(x, (SRecord, tuple)) for x in v):
+        return tuple(_clone_shared(x, memo) for x in v)
+    return v
+
+
 class State:
     def __init__(self, env=None, pc=None):
         self.env: Dict[str, Any] = env if env is not None else {}
@@ -718,6 +734,18 @@ class State:
 
     def fork(self):
         s = State(dict(self.env), list(self.pc))
+        if self.env.get('__shared_records__'):
+            # (C12, opt-in via Contract.consts) reference semantics for records: the whole graph of records reachable from
+            # the environment is copied once, so that two names / fields bound to the SAME record before the fork are still
+            # bound to one record after it (`r = d.get('k'); ...; r['x'] = v` must be seen through `d['k']`), and a nested
+            # record is never shared between the two sides of a path split
+            memo: Dict[int, Any] = {}
+            for k, v in s.env.items():
+                s.env[k] = _clone_shared(v, memo)
+            s.decided = dict(self.decided)
+            s.decided_used = dict(self.decided_used)
+            s.trace = list(self.trace)
+            return s
         for k, v in s.env.items():
             if isinstance(v, SRecord):
                 s.env[k] = v.clone()
@@ -1203,6 +1231,14 @@ class Engine:
                 self._unaliased(t.value, cont, st, 'del of an item')
                 self.assign(t.value, self.map_remove(cont, self.ev(t.slice, st), st, t), st)
                 return
+            if isinstance(cont, SRecord) and not any(k.startswith('has_') for k in cont.fields):
+                # (C12) `del d['key']` on a dict tracked as a record with a definite key set: the key goes, KeyError if absent
+                key = self.ev(t.slice, st)
+                if isinstance(key, str):
+                    if key not in cont.fields:
+                        raise PyRaise(SExc('KeyError'))
+                    del cont.fields[key]
+                    return
         raise Undecided('del not supported here: %s' % ast.unparse(t))
 
     def map_remove(self, m, key, st, node):
@@ -1276,6 +1312,11 @@ class Engine:
             idx = self.ev(target.slice, st)
             self._unaliased(target.value, cont, st, 'item assignment')
             newc = self.store(cont, idx, v, st, target)
+            if newc is cont and isinstance(cont, SRecord) and isinstance(target.value, ast.Call):
+                # (C12) a record returned by a call and updated in place (`d.setdefault('k', {})['x'] = v`): there is no
+                # place to write back to.  Every other container expression is written back as before (records read out
+                # of a symbolic list / map are value copies and must be stored again).
+                return
             self.assign(target.value, newc, st)
             return
         raise Undecided('assignment target %s' % ast.unparse(target))
@@ -1662,6 +1703,8 @@ class Engine:
                 return z3.BoolVal(True)
             return z3.Or(*[self.truthy(v.fields['has_' + k]) for k in keys]) if keys else z3.BoolVal(False)  # {} is false
         if isinstance(v, SRecord):
+            if self.c.consts.get('__shared_records__') and v.cls == 'dict' and not any(k.startswith('has_') for k in v.fields):
+                return z3.BoolVal(bool(v.fields))  # (C12, opt-in) a dict tracked with a definite key set: empty is falsy
             return z3.BoolVal(True)
         if isinstance(v, SFrac):
             return v.term != 0
@@ -3204,6 +3247,19 @@ class Engine:
             if key2 in self.c.calls:
                 kw = {k.arg: self.ev(k.value, st) for k in node.keywords}
                 return self._call_model(self.c.calls[key2], st, [recv] + args, kw, node)
+        if isinstance(recv, SRecord) and recv.cls == 'dict' and meth in ('setdefault', 'pop') and args and isinstance(args[0], str) and not node.keywords and not any(k.startswith('has_') for k in recv.fields):
+            # (C12) dict.setdefault / dict.pop with a literal key on a dict tracked as a record with a definite key set
+            k = args[0]
+            if meth == 'setdefault' and len(args) <= 2:
+                if k not in recv.fields:
+                    recv.fields[k] = args[1] if len(args) > 1 else None
+                return recv.fields[k]
+            if meth == 'pop' and len(args) <= 2:
+                if k in recv.fields:
+                    return recv.fields.pop(k)
+                if len(args) > 1:
+                    return args[1]
+                raise PyRaise(SExc('KeyError'))
         if isinstance(recv, z3.ExprRef) and recv.sort() == U and self.c.opaque_methods:
             # a method of an opaque object the contract says nothing about: result havocked, call recorded (contracts that
             # enumerate every permitted call turn the record into a failed obligation)
